@@ -28,6 +28,9 @@ def analyse(prop: str, tier: str, repo: str):
         except AnalysisError as ex:
             # one rule that cannot decide must not hide what the others found
             R.errors.append(f"{rule.__name__}: {ex}")
+        except Exception as ex:  # a rule that crashes on an unforeseen shape: undecided, never a pass
+            tb = traceback.extract_tb(ex.__traceback__)[-1]
+            R.errors.append(f"{rule.__name__}: checker raised {type(ex).__name__}: {ex} at {tb.filename.split('/')[-1]}:{tb.lineno}")
     return R, F
 
 
